@@ -7,6 +7,7 @@ CONSTANTS
   MaxFaults = 400
   EnPersistCall = TRUE
   FixPoisonAppend = TRUE
+  ClearFlushes = TRUE
 INVARIANTS FailStop MutualExclusion
 CONSTRAINT TrackL
 POSTCONDITION TraceAccepted
